@@ -10,7 +10,9 @@ import vf
 POOL = ["", "a", "A", "ab", "aB", "abc", "b", "aZ", "0z"]          # shared prefixes, case twins, a vacated slot
 CLASSES = ["AAAA ", "BBBB ", "AAAAx"]                                 # the third has a non-blank fifth byte
 PROBES = ["!", "zz", "aa", "B", "AB", "Abc", "az", "0Z"]              # below first, above last, absent, other letter cases
-PREFIXES = ["a", "A", "ab", "aB", "abc", "b", "aZ", "az", "0", "z", "ABCDEFGHIJKL"]
+PREFIXES = ["a", "A", "ab", "aB", "abc", "b", "aZ", "az", "0", "z", "ABCDEFGHIJKL", "a@", "a\xff"]
+# last bytes the descending search cannot increment: 'Z' (pool), '@' and 0xFF (the two tables below); C11_autocomplete excludes exactly these
+SPECIAL = [["a@", "a_a", "a_b", "aa"], ["a", "ab", "a\xff"]]
 LONG = ["ABCDEFGHIJKLM", "abcdefghijklmnop"]                          # 13 and 16 bytes
 
 
@@ -71,6 +73,8 @@ def main():
             tables.append((list(sel), titles))
     # two vacated slots, and a table of larger size
     tables.append((["b", "", "a", ""], ["AAAA ", "\0\0\0\0\0", "BBBB ", "\0\0\0\0\0"]))
+    for sp in SPECIAL:
+        tables.append((list(reversed(sp)), ["AAAA "] * len(sp)))
     for _ in range(40 if thorough else 6):
         n = rng.randrange(6, 60)
         seen, nm_l = set(), []
@@ -233,6 +237,10 @@ def main():
                 twins = len({low(x) for x in sn}) < len(sn)
                 if not asc and kw and kw[-1] in "Z":
                     key = "autocomplete-desc-upper-Z"
+                elif not asc and kw and kw[-1] == "@":
+                    key = "autocomplete-desc-at-sign"
+                elif not asc and kw and kw[-1] == "\xff":
+                    key = "autocomplete-desc-0xff"
                 elif twins:
                     key = "autocomplete-case-twins"
                 else:
@@ -258,7 +266,7 @@ def main():
                     {"cases": [l], "expected": want, "got": o})
 
     c.finish(rule="tables: every ordered selection of <= %d names from the pool %r + subsets of %d in PRNG(seed) orders + random tables of 6..59 boards; "
-                  "queries: every pool name, probes below/above/absent/other case; classes incl. one with a non-blank fifth title byte; prefixes incl. empty, 12, 13 and 16 bytes; "
+                  "queries: every pool name, probes below/above/absent/other case; classes incl. one with a non-blank fifth title byte; prefixes incl. empty, 12, 13 and 16 bytes, and last bytes 'Z', '@', 0xFF (+ two tables on which the latter two fail); "
                   "both directions; page sizes 1..n+1; non-trivial = distinct (table, operation, query) that returned" % (NALL, POOL, NMAX),
              assumptions=["the table is quiescent during lookups (BBusyState sleep-and-proceed is not a lock and is not modelled)",
                           "sort.Sort is library code: its output is read back from shared memory and checked to be a sorted permutation on every table, not re-proved",
